@@ -156,15 +156,88 @@ func isEqualityCall(v ssa.Value) (ssa.Value, ssa.Value, bool) {
 	return nil, nil, false
 }
 
-// elementOf: v is *(&C[i]) → C
+// elementOf: v is *(&C[i]) → C, or is derived (type assertion, slicing, field)
+// from iterator.Value(it) → it.
 func elementOf(v ssa.Value) (ssa.Value, bool) {
-	v = stripConv(v)
-	if u, ok := v.(*ssa.UnOp); ok && u.Op == token.MUL {
-		if ia, ok := u.X.(*ssa.IndexAddr); ok {
-			return stripConv(ia.X), true
+	for i := 0; i < 6; i++ {
+		v = stripConv(v)
+		switch x := v.(type) {
+		case *ssa.UnOp:
+			if x.Op == token.MUL {
+				if ia, ok := x.X.(*ssa.IndexAddr); ok {
+					return stripConv(ia.X), true
+				}
+			}
+			return nil, false
+		case *ssa.TypeAssert:
+			v = x.X
+		case *ssa.Slice:
+			v = x.X
+		case *ssa.Field:
+			v = x.X
+		case *ssa.Extract:
+			v = x.Tuple
+		case *ssa.Call:
+			if f := x.Common().StaticCallee(); f != nil && fq(f) == "iterator.Value" {
+				return stripConv(x.Common().Args[0]), true
+			}
+			return nil, false
+		default:
+			return nil, false
 		}
 	}
 	return nil, false
+}
+
+// membershipGuard: target is reachable only through the exhausted exit of a
+// loop that compares the member value with every element of a collection;
+// the "found equal" exit does not reach target within the same iteration of
+// the loop enclosing target (or at all, when target is in no loop).
+func membershipGuard(fn *ssa.Function, isMember func(ssa.Value) bool, target *ssa.BasicBlock) (ok bool, memIf *ssa.If, coll ssa.Value) {
+	for _, b := range fn.Blocks {
+		i, isIf := b.Instrs[len(b.Instrs)-1].(*ssa.If)
+		if !isIf {
+			continue
+		}
+		x, y, isEq := isEqualityCall(i.Cond)
+		if !isEq {
+			continue
+		}
+		for _, pr := range [][2]ssa.Value{{x, y}, {y, x}} {
+			if isMember(pr[0]) {
+				if c, found := elementOf(pr[1]); found {
+					memIf, coll = i, c
+				}
+			}
+		}
+	}
+	if memIf == nil {
+		return false, nil, nil
+	}
+	hm := innermostLoop(memIf.Block())
+	if hm == nil || loopBlocks(hm)[target] {
+		return false, memIf, coll
+	}
+	hv := innermostLoop(target)
+	var done *ssa.BasicBlock
+	for _, s := range hm.Succs {
+		if !loopBlocks(hm)[s] {
+			done = s
+		}
+	}
+	ok = done != nil && done.Dominates(target)
+	for _, e := range loopExits(hm) {
+		if e.from == hm {
+			continue
+		}
+		if e.to == hv {
+			continue
+		}
+		if blockReaches(e.to, target, hv) {
+			ok = false
+		}
+	}
+	return ok, memIf, coll
 }
 
 // appendOf: v = append(base, elems...) with a literal element list.
